@@ -33,7 +33,7 @@ func getBalancesAggregated(w http.ResponseWriter, r *http.Request) {
 
 	balances, err := common.LedgerFromContext(r.Context()).GetAggregatedBalances(r.Context(), *rq)
 	if err != nil {
-		common.HandleCommonErrors(w, r, err)
+		common.HandleCommonPaginationErrors(w, r, err)
 		return
 	}
 
